@@ -64,7 +64,7 @@ namespace GeographicLib {
     real _a, _f, _fm, _e2, _e, _e2m, _qZ, _qx;
     real _sign, _lat0, _k0;
     real _n0, _m02, _nrho0, _k2, _txi0, _scxi0, _sxi0;
-    static const int numit_ = 5;   // Newton iterations in Reverse
+    static const int numit_ = 50;  // Newton iterations in Reverse
     static const int numit0_ = 20; // Newton iterations in Init
     static real hyp(real x) {
       using std::hypot;
